@@ -1097,8 +1097,10 @@ func runRuleTV(prop string) func(rc *runCtx, ev *evidence) (int, bool) {
 			}
 			seen[key] = true
 			violations++
-			file := filepath.Join(dir, fmt.Sprintf("ruletv-%s-%d.go.txt", f.Group, violations))
-			os.WriteFile(file, []byte("// "+strings.ReplaceAll(f.Detail, "\n", "\n// ")+"\n// class: "+f.Class+"\n\n"+f.Replay+"\n\n/* analysed program:\n"+f.Src+"\n*/\n"), 0o644)
+			file := filepath.Join(dir, fmt.Sprintf("ruletv-%s-%d.json", f.Group, violations))
+			data, _ := json.MarshalIndent(map[string]interface{}{"property": prop, "harness": "RuleTV", "kind": "ruletv", "class": f.Class, "msg": f.Detail,
+				"model": map[string]interface{}{"group": f.Group, "analysed_program": f.Src, "replay_program": f.Replay}}, "", " ")
+			os.WriteFile(file, data, 0o644)
 			fmt.Printf("VIOLATION property=%s replay=%s\n  rule group %s [%s]: %s\n", prop, file, f.Group, f.Class, firstLine(f.Detail))
 		}
 		ev.Violations += violations
@@ -1633,4 +1635,43 @@ func tvQualifierAt(c *tvCand, pk string) string {
 		return true
 	})
 	return res
+}
+
+// replayRuleTV replays a RuleTV counterexample: the recorded program (original and
+// suggestion on the model's values) is run natively; a finding without a program
+// (C09 / C20 oracles) is decided again by re-running the rule group's grid on the current tree.
+func replayRuleTV(rc *runCtx, path string, data []byte) int {
+	var vf violationFile
+	json.Unmarshal(data, &vf)
+	group, _ := vf.Model["group"].(string)
+	prog, _ := vf.Model["replay_program"].(string)
+	if prog != "" {
+		dir, err := os.MkdirTemp("", "gsx-ruletv-")
+		if err != nil {
+			return 2
+		}
+		defer os.RemoveAll(dir)
+		os.WriteFile(filepath.Join(dir, "main.go"), []byte(prog), 0o644)
+		cmd := exec.Command("go", "run", "main.go")
+		cmd.Dir = dir
+		cmd.Env = append(os.Environ(), "GOFLAGS=-mod=mod", "GOPROXY=off", "GOSUMDB=off", "GOTOOLCHAIN=local", "GO111MODULE=off")
+		out, _ := cmd.CombinedOutput()
+		fmt.Printf("replay %s: %s\n", path, lastLines(string(out), 3))
+		if !strings.Contains(string(out), "GSX-DIFF") {
+			return 0
+		}
+		// the program still differs; is it still what the current tree reports?
+	}
+	rc.only = "rule:" + group
+	spec := properties[vf.Property]
+	ev := newEvidence(rc, spec)
+	n, broken := spec.Extra(rc, ev)
+	fmt.Printf("replay %s: rule group %s was decided again on the current tree: %d violation(s)\n", path, group, n)
+	switch {
+	case n > 0:
+		return 1
+	case broken:
+		return 2
+	}
+	return 0
 }
